@@ -39,6 +39,18 @@ func init() {
 	for _, a := range []string{"$", "*", "^", "~", "|"} {
 		badPairs[[2]string{a, "="}] = true
 	}
+	// "--" starts an identifier, "#-" a hash, "1%" is a percentage
+	for _, a := range []string{"#", "-", "number"} {
+		badPairs[[2]string{a, "-->"}] = true
+	}
+	badPairs[[2]string{"@", "-->"}] = true
+	badPairs[[2]string{"#", "-"}] = true
+	badPairs[[2]string{"-", "-"}] = true
+	badPairs[[2]string{"number", "%"}] = true
+	// "|" followed by "||" or "|=" would be read as "||" first
+	badPairs[[2]string{"|", "||"}] = true
+	badPairs[[2]string{"|", "|="}] = true
+	badPairs[[2]string{"/", "*="}] = true
 	badPairs[[2]string{"ident", "() block"}] = true
 	badPairs[[2]string{"|", "|"}] = true
 	badPairs[[2]string{"/", "*"}] = true
